@@ -8,7 +8,7 @@ RULE = ("operation histories (<= 60 ops quick, <= 150 thorough) over Map<uint64_
         "crafted (FNV-1a reimplemented in Python) so that their hashes share low bits: clusters that collide at every "
         "capacity 8..1024 and clusters that start in the last slots and wrap around the table end; bulk fill/drain ops "
         "drive the table through every growth step to capacity 2048; after every op the return value, count and a full "
-        "iteration are compared with a Python dict/set model. Property lists: histories over set_property (5 overloads, "
+        "iteration are compared with a Python dict/set model, and every crafted key is looked up after each insertion/removal. Property lists: histories over set_property (5 overloads, "
         "create_new both ways), set_gds_property, get/remove (all / first), copy, clear vs an ordered multimap model. "
         "Sorting: sort/intro_sort(max_depth 0..3)/heap_sort/insertion_sort on arrays of (key,id) of length 0..300 in "
         "sorted/reversed/constant/organ-pipe/few-distinct/random order under 4 strict weak orders; oracle = ordered "
@@ -222,6 +222,17 @@ def check_container(ctx, case):
             labels.add("resize")
         if len(model) <= 48 and name in ("set", "del", "set_self", "resize", "setclass"):
             emit_iter()
+        if name in ("set", "del", "set_self", "setclass"):
+            # look-up (not only iteration) of every crafted key after an insertion or removal: an entry that a removal
+            # leaves stranded behind a gap is still iterated and counted, only the probe sequence no longer finds it
+            for kk in keys[:18] + ([keys[op[1]]] if name != "setclass" else []):
+                if sets:
+                    lines.append("cont set %s has %s" % (cur, kt(kk)))
+                    expect.append(("ret", kk in model))
+                else:
+                    lines.append("cont %s %s get %s" % (kind, cur, kt(kk)))
+                    expect.append(("get", kk, model.get(kk), kk in model))
+            labels.add("lookup_after_update")
     emit_iter()
     outs = ctx.run(lines, case)
     if len(outs) != len(expect):
